@@ -53,7 +53,7 @@ structure Mono (s : Mon) (t : WTh) (s' : Mon) (t' : WTh) : Prop where
   hm : ∀ k : Nat, (if s.m then 1 else 0) = k + fCrit t → (if s'.m then 1 else 0) = k + fCrit t'
 
 theorem step_mono {s : Mon} {t : WTh} {s' : Mon} {t' : WTh} (h : (s', t') ∈ step s t) : Mono s t s' t' := by
-  obtain ⟨pc, script, res⟩ := t
+  obtain ⟨pc, script, res, cb⟩ := t
   obtain ⟨m, value, genI, genD⟩ := s
   cases pc with
   | idle =>
@@ -160,7 +160,7 @@ theorem mustWait_mono {op : WOp} {v v' : Int} (h : mustWait op v) :
 theorem tinv_other {s s' : Mon} {t t' u : WTh} {A B : Nat} (hmono : Mono s t s' t')
     (hu : tinv s (A + fBcI t) (B + fBcD t) u) (hcr : fCrit u = 0 ∨ s'.value = s.value) :
     tinv s' (A + fBcI t') (B + fBcD t') u := by
-  obtain ⟨pc, script, res⟩ := u
+  obtain ⟨pc, script, res, cb⟩ := u
   cases pc with
   | critW =>
     simp only [tinv] at hu ⊢
@@ -256,7 +256,7 @@ theorem inv_reach {v : Int} {scripts : List (List WOp)} {c : Cfg Mon WTh}
 /-! ## Quiescence: who is still waiting has a reason to -/
 
 theorem stuck_flags {s : Mon} {t : WTh} (h : step s t = []) : fCrit t = 0 ∧ fBcI t = 0 ∧ fBcD t = 0 := by
-  obtain ⟨pc, script, res⟩ := t
+  obtain ⟨pc, script, res, cb⟩ := t
   cases pc <;> simp [fCrit, fBcI, fBcD] <;> simp [step] at h
   case crit op =>
     cases op <;> simp [critStep] at h <;> (try split at h) <;> simp at h
@@ -264,7 +264,7 @@ theorem stuck_flags {s : Mon} {t : WTh} (h : step s t = []) : fCrit t = 0 ∧ fB
 theorem stuck_shape {s : Mon} {t : WTh} (h : step s t = []) (hm : s.m = false) :
     t.done ∨ (∃ op g, t.pc = .parkI op g ∧ s.genI ≤ g) ∨ (∃ op g, t.pc = .parkD op g ∧ s.genD ≤ g) := by
   have hf := stuck_flags h
-  obtain ⟨pc, script, res⟩ := t
+  obtain ⟨pc, script, res, cb⟩ := t
   cases pc <;> simp [fCrit, fBcI, fBcD, WTh.done] at hf ⊢
   case idle =>
     cases script with
@@ -302,9 +302,9 @@ theorem stuck_waiters {s : Mon} {ts : List WTh} (h : Inv s ts) (hst : Stuck sys 
     · omega
 
 theorem fBcI_pos {t : WTh} (h : 0 < fBcI t) : t.pc = .bcI := by
-  obtain ⟨pc, script, res⟩ := t; cases pc <;> simp [fBcI] at h ⊢
+  obtain ⟨pc, script, res, cb⟩ := t; cases pc <;> simp [fBcI] at h ⊢
 
 theorem fBcD_pos {t : WTh} (h : 0 < fBcD t) : t.pc = .bcD := by
-  obtain ⟨pc, script, res⟩ := t; cases pc <;> simp [fBcD] at h ⊢
+  obtain ⟨pc, script, res, cb⟩ := t; cases pc <;> simp [fBcD] at h ⊢
 
 end Hive.SyncMutex.Wait
